@@ -254,12 +254,13 @@ impl CFormatSpec {
     }
 
     pub fn format_bytes(&self, bytes: &[u8]) -> Vec<u8> {
-        let bytes = if let Some(CFormatPrecision::Quantity(CFormatQuantity::Amount(precision))) =
-            self.precision
-        {
-            &bytes[..cmp::min(bytes.len(), precision)]
-        } else {
-            bytes
+        let bytes = match self.precision {
+            Some(CFormatPrecision::Quantity(CFormatQuantity::Amount(precision))) => {
+                &bytes[..cmp::min(bytes.len(), precision)]
+            }
+            // a '.' without digits is the precision 0
+            Some(CFormatPrecision::Dot) => &bytes[..0],
+            _ => bytes,
         };
         if let Some(CFormatQuantity::Amount(width)) = self.min_field_width {
             let fill = width.saturating_sub(bytes.len());
